@@ -62,6 +62,7 @@ struct State {
     choked: bool,
     interested: bool,
     keep_alive: u32,
+    handshake_done: bool,
 }
 
 struct Stats {
@@ -170,6 +171,7 @@ impl PeerHandler {
                 choked: true,
                 interested: false,
                 keep_alive: 0,
+                handshake_done: false,
             },
             stats: Stats::new(),
             msg_buff: vec![],
@@ -316,6 +318,15 @@ impl PeerHandler {
     ) -> Result<bool, Box<dyn std::error::Error>> {
         match opt_frame {
             Some(frame) => {
+                // Nothing is handled (or answered) before valid handshake from peer
+                match frame {
+                    Frame::Handshake(_) => (),
+                    _ if !self.peer_state.handshake_done => {
+                        return Err(Error::HandshakeNotReceived.into())
+                    }
+                    _ => (),
+                }
+
                 self.peer_state.keep_alive = match frame {
                     Frame::KeepAlive(_) => self.peer_state.keep_alive,
                     _ => 0,
@@ -350,6 +361,7 @@ impl PeerHandler {
         handshake: &Handshake,
     ) -> Result<bool, Box<dyn std::error::Error>> {
         handshake.validate(&self.info_hash, &self.peer_id)?;
+        self.peer_state.handshake_done = true;
 
         let peer_init_handshake = self.peer_id.is_none();
         self.peer_id = Some(*handshake.peer_id());
